@@ -190,3 +190,74 @@ func UF64(name string, args ...uint64) uint64 {
 	}
 	return h
 }
+
+// ---- native job runner (used by the generated replay test) ----
+
+type job struct {
+	ID      string            `json:"id"`
+	Harness string            `json:"harness"`
+	Model   map[string]uint64 `json:"model"`
+}
+
+type jobResult struct {
+	ID      string   `json:"id"`
+	Harness string   `json:"harness"`
+	Outcome string   `json:"outcome"` // OK, ASSERT, PANIC, INFEASIBLE, STOP
+	Msg     string   `json:"msg"`
+	Trace   []string `json:"trace"`
+}
+
+func runOne(fn func()) (outcome, msg string) {
+	defer func() {
+		if r := recover(); r != nil {
+			switch p := r.(type) {
+			case AssertFailure:
+				outcome, msg = "ASSERT", p.Msg
+			case AssumeFailure:
+				outcome, msg = "INFEASIBLE", p.Msg
+			case StopPath:
+				outcome, msg = "STOP", p.Why
+			default:
+				outcome, msg = "PANIC", fmt.Sprint(r)
+			}
+		}
+	}()
+	fn()
+	return "OK", ""
+}
+
+// RunJobs executes the jobs listed in the file named by VERIF_JOBS and prints
+// one "VERIF-NATIVE {json}" line per job.
+func RunJobs(fns map[string]func()) {
+	p := os.Getenv("VERIF_JOBS")
+	if p == "" {
+		return
+	}
+	b, err := os.ReadFile(p)
+	if err != nil {
+		panic(err)
+	}
+	var jobs []job
+	if err := json.Unmarshal(b, &jobs); err != nil {
+		panic(err)
+	}
+	for _, j := range jobs {
+		fn := fns[j.Harness]
+		if fn == nil {
+			continue
+		}
+		nameCnt = map[string]int{}
+		Trace = nil
+		Failures = nil
+		model = j.Model
+		if model == nil {
+			model = map[string]uint64{}
+		}
+		loaded = true
+		fmt.Printf("VERIF-NATIVE-START %s\n", j.ID)
+		os.Stdout.Sync()
+		outcome, msg := runOne(fn)
+		rb, _ := json.Marshal(jobResult{ID: j.ID, Harness: j.Harness, Outcome: outcome, Msg: msg, Trace: Trace})
+		fmt.Printf("VERIF-NATIVE %s\n", rb)
+	}
+}
